@@ -107,12 +107,14 @@ def run_schedule(nthreads, ntests, outcomes, use_tags, ctl_calls, fault_at, sche
                     f.startTestRun()
                 except TargetFault:
                     errors.setdefault(w, []).append("startTestRun")
+            if use_tags & 2:
+                f.tags({"run-w%d" % w}, set())      # run-level tag of this forwarder (outside any test)
             for n in range(ntests):
                 test = PlaceHolder("w%d.t%d" % (w, n))
                 try:
                     f.time(("start", w, n))
                     f.startTest(test)
-                    if use_tags:
+                    if use_tags & 1:
                         f.tags({"tag-w%d-t%d" % (w, n)}, set())
                     f.time(("end", w, n))
                     oc = OUTCOMES[outcomes[(w * ntests + n) % len(outcomes)]]
@@ -179,14 +181,18 @@ def run_schedule(nthreads, ntests, outcomes, use_tags, ctl_calls, fault_at, sche
             mids = block[3:-2]
             if any(e[1] != "tags" for e in mids):
                 problems.append("%s: unexpected events between end time and outcome: %r" % (tid_test, block))
-            if use_tags:
-                got_tags = set()
-                for e in mids:
-                    got_tags |= set(e[2])
-                    got_tags -= set(e[3])
-                if got_tags != {"tag-w%d-t%d" % (w, n)}:
-                    problems.append("%s: block carries tags %r instead of exactly its own" % (tid_test, sorted(got_tags)))
-            elif mids:
+            want_tags = set()
+            if use_tags & 1:
+                want_tags.add("tag-w%d-t%d" % (w, n))
+            if use_tags & 2:
+                want_tags.add("run-w%d" % w)
+            got_tags = set()
+            for e in mids:
+                got_tags |= set(e[2])
+                got_tags -= set(e[3])
+            if got_tags != want_tags:
+                problems.append("%s: block carries tags %r instead of exactly its own %r" % (tid_test, sorted(got_tags), sorted(want_tags)))
+            elif mids and not want_tags:
                 problems.append("%s: block carries tags although the test has none: %r" % (tid_test, mids))
             if a < last_b:
                 problems.append("%s: delivered out of its thread's order" % tid_test)
@@ -195,12 +201,12 @@ def run_schedule(nthreads, ntests, outcomes, use_tags, ctl_calls, fault_at, sche
             "errors": errors, "problems": problems}
 
 
-def h_sched(nthreads: int, ntests: int, o0: int, o1: int, use_tags: bool, ctl_calls: int, fault_at: int,
+def h_sched(nthreads: int, ntests: int, o0: int, o1: int, use_tags: int, ctl_calls: int, fault_at: int,
             s0: int, s1: int, s2: int, s3: int, s4: int, s5: int, s6: int, s7: int, s8: int, s9: int,
             s10: int, s11: int, s12: int, s13: int, s14: int, s15: int, depth: int) -> bool:
     """
     pre: 2 <= nthreads <= 3 and 1 <= ntests <= 3 and 0 <= o0 < 4 and 0 <= o1 < 4 and 0 <= ctl_calls < 4
-    pre: -1 <= fault_at < 24 and 0 <= depth <= 16
+    pre: -1 <= fault_at < 24 and 0 <= depth <= 16 and 0 <= use_tags < 4
     pre: 0 <= s0 < 3 and 0 <= s1 < 3 and 0 <= s2 < 3 and 0 <= s3 < 3 and 0 <= s4 < 3 and 0 <= s5 < 3 and 0 <= s6 < 3 and 0 <= s7 < 3
     pre: 0 <= s8 < 3 and 0 <= s9 < 3 and 0 <= s10 < 3 and 0 <= s11 < 3 and 0 <= s12 < 3 and 0 <= s13 < 3 and 0 <= s14 < 3 and 0 <= s15 < 3
     post: _
@@ -208,10 +214,12 @@ def h_sched(nthreads: int, ntests: int, o0: int, o1: int, use_tags: bool, ctl_ca
     try:
         nt = ch.sel("nthreads", nthreads, 4)
         ne = ch.sel("ntests", ntests, 4)
-        v = dict(nthreads=nt, ntests=ne, o0=ch.sel("o0", o0, 4), o1=ch.sel("o1", o1, 4), use_tags=ch.cbool(use_tags),
+        v = dict(nthreads=nt, ntests=ne, o0=ch.sel("o0", o0, 4), o1=ch.sel("o1", o1, 4), use_tags=ch.sel("use_tags", use_tags, 4),
                  ctl_calls=ch.sel("ctl_calls", ctl_calls, 4))
         v["fault_at"] = ch.conc(fault_at + 1, 25) - 1 if "fault_at" not in ch.FIX else ch.FIX["fault_at"]
         dp = ch.sel("depth", depth, 17)
+        if v["use_tags"] not in ch.FIX.get("tagset", (0, 1, 2, 3)):
+            raise ch.Prune()
     except ch.Prune:
         return True
     sched_vars = [s0, s1, s2, s3, s4, s5, s6, s7, s8, s9, s10, s11, s12, s13, s14, s15][:dp]
@@ -229,11 +237,12 @@ def _shards(tier):
     base = {"nthreads": 2, "o0": 1, "o1": 2}
     if tier == "quick":
         for fa in range(-1, 12):
-            out.append((dict(base, ntests=1, depth=10, fault_at=fa, ctl_calls=0), 1800))
+            out.append((dict(base, ntests=1, depth=10, fault_at=fa, ctl_calls=0, tagset=(0, 3)), 1800))
+        out.append((dict(base, ntests=1, depth=6, fault_at=-1, ctl_calls=0, tagset=(1, 2)), 1800))
         for fa in (-1, 0, 6, 13, 16):
-            out.append((dict(base, ntests=1, depth=7, fault_at=fa, ctl_calls=3), 1800))
+            out.append((dict(base, ntests=1, depth=7, fault_at=fa, ctl_calls=3, tagset=(0, 3)), 1800))
         for fa in (-1, 5, 14):
-            out.append((dict(base, ntests=2, depth=7, fault_at=fa, ctl_calls=0), 1800))
+            out.append((dict(base, ntests=2, depth=7, fault_at=fa, ctl_calls=0, tagset=(1, 3) if fa >= 0 else (0, 1, 2, 3)), 1800))
     else:
         for o0, o1 in ((1, 2), (0, 3)):
             b2 = {"nthreads": 2, "o0": o0, "o1": o1}
@@ -259,8 +268,8 @@ HARNESSES = [
     Harness("sched", h_sched, _shards,
             bounds={"quick": "2 forwarder threads; the schedule is symbolic: at each of the first k points where more than one thread is "
                              "runnable the solver chooses which runs (afterwards the lowest-numbered runnable thread); scheduling points = "
-                             "semaphore acquire/release and every call on the shared target. (A) 1 test per thread (failure / skip, with "
-                             "and without test tags, explicit times), k = 10, the j-th call on the target raises for every j in 0..11 and no "
+                             "semaphore acquire/release and every call on the shared target. (A) 1 test per thread (failure / skip; tags in {none, "
+                             "test-local, run-level, both}: none and both in every shard, the other two in the fault-free shards; explicit times), k = 10, the j-th call on the target raises for every j in 0..11 and no "
                              "fault; (B) additionally startTestRun before and stop/done/stopTestRun after, k = 7, faults at {none, 0, 6, "
                              "13, 16}; (C) 2 tests per thread, k = 7, faults at {none, 5, 14}",
                     "thorough": "two outcome pairs; (A) k = 14; (B) k = 10 with every fault position; (C) k = 10 with every fault position; "
